@@ -9,7 +9,7 @@ Open Scope N_scope.
 Ltac psimpl :=
   cbn [s_now s_control s_restart_iin s_enabled s_last s_select s_unsol s_unsol_seq s_deferred
        s_last_recorded s_last_bcast s_sol_buf s_unsol_buf s_pending s_frame_id s_notify
-       s_sel_status s_op_status s_app_iin s_answers
+       s_sel_status s_op_status s_app_iin s_answers s_bcast_rep upd_bcast_rep
        upd_control upd_now upd_restart upd_enabled upd_last upd_select upd_unsol upd_unsol_seq
        upd_deferred upd_last_recorded upd_last_bcast upd_sol_buf upd_unsol_buf upd_pending
        upd_frame_id upd_notify upd_knobs upd_answers session_reset deferred_set fst snd].
@@ -17,7 +17,7 @@ Ltac psimpl :=
 Ltac psimpl_in H :=
   cbn [s_now s_control s_restart_iin s_enabled s_last s_select s_unsol s_unsol_seq s_deferred
        s_last_recorded s_last_bcast s_sol_buf s_unsol_buf s_pending s_frame_id s_notify
-       s_sel_status s_op_status s_app_iin s_answers
+       s_sel_status s_op_status s_app_iin s_answers s_bcast_rep upd_bcast_rep
        upd_control upd_now upd_restart upd_enabled upd_last upd_select upd_unsol upd_unsol_seq
        upd_deferred upd_last_recorded upd_last_bcast upd_sol_buf upd_unsol_buf upd_pending
        upd_frame_id upd_notify upd_knobs upd_answers session_reset deferred_set fst snd] in H.
@@ -183,6 +183,16 @@ Qed.
 Lemma set_con_seq c : ctl_seq (set_con c) = ctl_seq c.
 Proof. unfold set_con, ctl_seq. destruct (ctl_con c); lia. Qed.
 
+(* fix F25: recording / clearing which response reported a broadcast touches none of the framed fields *)
+Lemma bcast_reported_frame s c : frame s (bcast_reported s c).
+Proof. unfold bcast_reported. destruct (s_last_bcast s) as [[]|]; frame_tac. Qed.
+Lemma bcast_confirmed_frame s u q : frame s (bcast_confirmed s u q).
+Proof. unfold bcast_confirmed. destruct (rep_eqb _ _ _); frame_tac. Qed.
+Lemma bcast_reported_sol_buf s c : s_sol_buf (bcast_reported s c) = s_sol_buf s.
+Proof. unfold bcast_reported. destruct (s_last_bcast s) as [[]|]; reflexivity. Qed.
+Lemma bcast_reported_unsol_buf s c : s_unsol_buf (bcast_reported s c) = s_unsol_buf s.
+Proof. unfold bcast_reported. destruct (s_last_bcast s) as [[]|]; reflexivity. Qed.
+
 Lemma write_solicited_spec s dest r s1 r' o :
   write_solicited s dest r = (s1, r', o) ->
   frame s s1 /\ r_size r' = r_size r /\ r_fn r' = r_fn r /\ ctl_seq (r_ctl r') = ctl_seq (r_ctl r) /\
@@ -190,12 +200,12 @@ Lemma write_solicited_spec s dest r s1 r' o :
 Proof.
   unfold write_solicited. destruct (response_iin s) as [[s0 iin] o0] eqn:E.
   apply response_iin_spec in E as [F S]. intros H. inv_pair H.
-  split; [exact F|].
+  split; [eapply frame_trans; [exact F|apply bcast_reported_frame]|].
   repeat split.
-  - destruct (s_last_bcast s1) as [[]|]; reflexivity.
-  - destruct (s_last_bcast s1) as [[]|]; reflexivity.
-  - destruct (s_last_bcast s1) as [[]|]; cbn [with_ctl or_iin r_ctl]; auto using set_con_seq.
-  - exists o0. split; [reflexivity | exact S].
+  - destruct (s_last_bcast s0) as [[]|]; reflexivity.
+  - destruct (s_last_bcast s0) as [[]|]; reflexivity.
+  - destruct (s_last_bcast s0) as [[]|]; cbn [with_ctl or_iin r_ctl]; auto using set_con_seq.
+  - exists o0. rewrite bcast_reported_sol_buf. split; [reflexivity | exact S].
 Qed.
 
 Lemma write_unsolicited_spec cfg s r s1 r' o :
@@ -205,7 +215,8 @@ Lemma write_unsolicited_spec cfg s r s1 r' o :
 Proof.
   unfold write_unsolicited. destruct (response_iin s) as [[s0 iin] o0] eqn:E.
   apply response_iin_spec in E as [F S]. intros H. inv_pair H.
-  split; [exact F|]. repeat split. exists o0. split; [reflexivity | exact S].
+  split; [eapply frame_trans; [exact F|apply bcast_reported_frame]|]. repeat split.
+  exists o0. rewrite bcast_reported_unsol_buf. split; [reflexivity | exact S].
 Qed.
 
 (* ---------- the non-READ functions ---------------------------------------------------------------------- *)
@@ -455,18 +466,18 @@ Proof.
   destruct (negb (o_broadcast cfg)); [intros H; inv_pair H; split; [frame_tac | reflexivity]|].
   destruct obj as [iin2|hdrs rh]; [intros H; inv_pair H; split; [frame_tac | reflexivity]|].
   destruct (fn =? fn_write).
-  { destruct (handle_write_headers cfg (upd_last_bcast s (Some m)) hdrs) as [[s2 v] o2] eqn:E.
+  { destruct (handle_write_headers cfg (upd_bcast_rep (upd_last_bcast s (Some m)) None) hdrs) as [[s2 v] o2] eqn:E.
     apply handle_write_headers_spec in E as [F S]. intros H; inv_pair H.
     split; [eapply frame_trans; [|exact F]; frame_tac|].
     rewrite forallb_app, (forallb_imp _ _ _ exec_req S). reflexivity. }
   destruct (fn =? fn_direct_operate_nr) eqn:Enr.
   { apply N.eqb_eq in Enr. subst fn.
-    destruct (handle_controls cfg (upd_last_bcast s (Some m)) fn_direct_operate_nr (ctl_seq ctl) fid bytes hdrs)
+    destruct (handle_controls cfg (upd_bcast_rep (upd_last_bcast s (Some m)) None) fn_direct_operate_nr (ctl_seq ctl) fid bytes hdrs)
       as [[s2 r2] o2] eqn:E.
     apply handle_controls_spec in E as [F [S X]]. destruct (X eq_refl) as [-> ->].
     intros H; inv_pair H. split; [frame_tac|].
     rewrite forallb_app, (forallb_imp _ _ _ exec_req S). reflexivity. }
-  assert (Hfr : forall ft, (let '(_, o) := handle_freeze cfg ft hdrs in (upd_last_bcast s (Some m), o ++ [OInfo (IBroadcast fn 0 0)])) = (s1, o) ->
+  assert (Hfr : forall ft, (let '(_, o) := handle_freeze cfg ft hdrs in (upd_bcast_rep (upd_last_bcast s (Some m)) None, o ++ [OInfo (IBroadcast fn 0 0)])) = (s1, o) ->
             frame s s1 /\ forallb req_obs o = true).
   { intros ft. destruct (handle_freeze cfg ft hdrs) as [v o2] eqn:E. apply handle_freeze_spec in E.
     intros H; inv_pair H. split; [frame_tac|].
@@ -479,11 +490,11 @@ Proof.
     rewrite forallb_app, (forallb_imp _ _ _ exec_req E). reflexivity. }
   destruct (fn =? fn_record_time); [intros H; inv_pair H; split; [frame_tac | reflexivity]|].
   destruct (fn =? fn_disable_unsol).
-  { destruct (enable_disable cfg (upd_last_bcast s (Some m)) false (ctl_seq ctl) hdrs) as [s2 r2] eqn:E.
+  { destruct (enable_disable cfg (upd_bcast_rep (upd_last_bcast s (Some m)) None) false (ctl_seq ctl) hdrs) as [s2 r2] eqn:E.
     apply enable_disable_spec in E as [F _]. intros H; inv_pair H.
     split; [eapply frame_trans; [|exact F]; frame_tac | reflexivity]. }
   destruct (fn =? fn_enable_unsol).
-  { destruct (enable_disable cfg (upd_last_bcast s (Some m)) true (ctl_seq ctl) hdrs) as [s2 r2] eqn:E.
+  { destruct (enable_disable cfg (upd_bcast_rep (upd_last_bcast s (Some m)) None) true (ctl_seq ctl) hdrs) as [s2 r2] eqn:E.
     apply enable_disable_spec in E as [F _]. intros H; inv_pair H.
     split; [eapply frame_trans; [|exact F]; frame_tac | reflexivity]. }
   intros H; inv_pair H; split; [frame_tac | reflexivity].
@@ -850,9 +861,11 @@ Proof.
       apply process_broadcast_spec in Ep as [[[Fc [Fl [Fd [Fp [Fn Fu]]]]] Fb] S]. inv_pair H.
       psimpl_in Fc. psimpl_in Fl. psimpl_in Fp. psimpl_in Fn. psimpl_in Fu. psimpl_in Fb.
       apply Hsame; auto. unfold wait_frame; auto.
-    + destruct (s_last_bcast s) as [[]|]; inv_pair H; apply Hsame; auto; try reflexivity;
+    + pose proof (bcast_confirmed_frame s false q) as [[Fc [Fl [Fd [Fp [Fn Fu]]]]] Fb].
+      inv_pair H; apply Hsame; auto; try reflexivity;
         try (intros X; congruence); try (unfold wait_frame; psimpl; auto).
-    + destruct (q =? ctl_seq (r_ctl resp)); inv_pair H; apply Hsame; auto; try reflexivity;
+    + pose proof (bcast_confirmed_frame s true q) as [[Fc [Fl [Fd [Fp [Fn Fu]]]]] Fb].
+      destruct (q =? ctl_seq (r_ctl resp)); inv_pair H; apply Hsame; auto; try reflexivity;
         try (intros X; congruence); try (unfold wait_frame; psimpl; auto).
 Qed.
 
@@ -885,8 +898,10 @@ Proof.
     + inv_pair H. apply Hnone. reflexivity.
     + destruct (process_broadcast cfg (upd_deferred s None) m fid ctl fn bytes obj) as [s2 o2] eqn:Ep.
       apply process_broadcast_spec in Ep as [[[Fc [Fl [Fd _]]] Fb] S]. inv_pair H. apply Hnone. exact Fd.
-    + destruct (s_last_bcast s) as [[]|]; inv_pair H; apply Hsame; reflexivity.
-    + destruct (q =? ctl_seq (r_ctl resp)); inv_pair H; apply Hsame; reflexivity.
+    + pose proof (bcast_confirmed_frame s false q) as [[Fc [Fl [Fd _]]] Fb].
+      inv_pair H; apply Hsame; assumption.
+    + pose proof (bcast_confirmed_frame s true q) as [[Fc [Fl [Fd _]]] Fb].
+      destruct (q =? ctl_seq (r_ctl resp)); inv_pair H; apply Hsame; first [assumption | reflexivity].
 Qed.
 
 (* ---------- unsolicited: starting and ending a series ------------------------------------------------------------------ *)
